@@ -383,7 +383,7 @@ register("C13", streams=[Q("parent", apis=["find_matches"], src=None, share=2), 
 register("C17", streams=[Q("all", apis=["find_matches", "find", "get_match"], src=None)],
          observables=["results_exc", "leaf_events", "stamps", "tie:trace"], oracles=[oracles.untraced_oracle],
          rule="full trace event stream (last_match, vertex index, next_match, predicate_match) compared with the machine model; unstamped events compared with the specification stream; traced vs untraced runs compared on the python side")
-register("C20", streams=[Q("all", apis=["find_matches"], src=None, nexts="drain")],
+register("C20", generated=["Budget"], streams=[Q("all", apis=["find_matches"], src=None, nexts="drain")],
          observables=["attempts_bound", "results_exc", "tie:attempts"], oracles=[oracles.work_bound_oracle, oracles.cyclic_oracle],
          rule="number of trace events of a drained search compared with the specification's attempt count and with 2 x examinations; cyclic dict/list structures with the real budget as support")
 
